@@ -9,17 +9,32 @@ pub fn gen15(tier: &str, rng: &mut Rng) -> Vec<Spec> {
     let t = tier == "thorough"; let mut v = vec![];
     for kind in ["diff", "int", "pipe_di", "pipe_id"] {
         for l in 0..=(if t { 7 } else { 6 }) { for xs in small_hists(l) { v.push(Spec::new(kind).with("xs", join_rats(&xs))); } }
+        // f64 / f32 instantiations on integers (every operation exact), plus large magnitudes on exact rationals
+        for (i, ty) in ["f64", "f32", "big"].iter().enumerate() { for _ in 0..(if t { 300 } else { 40 }) {
+            let l = rng.range(1, 60) as usize; let xs = if i == 2 { int_hist(rng, l, 4_000_000_000_000) } else { int_hist(rng, l, 1000) };
+            v.push(Spec::new(kind).with("ty", ty).with("xs", join_rats(&xs))); } }
         for _ in 0..(if t { 1500 } else { 200 }) { let l = rng.range(1, if t { 120 } else { 40 }) as usize; v.push(Spec::new(kind).with("xs", join_rats(&rand_hist(rng, l, 7)))); }
     }
     v
 }
 pub fn exec15(s: &Spec, stats: &mut Stats) -> Outcome {
     let xs = s.rats("xs"); stats.bump(format!("len:{}", xs.len() / 10 * 10));
-    let (k, (ys, p)) = match s.kind.as_str() {
+    let ty = if s.has("ty") { s.get("ty") } else { "rat" }; stats.bump(format!("ty:{}", ty));
+    let (k, (ys, p)) = match (s.kind.as_str(), ty) {
+        ("diff", "f64") => (0, run_all(&mut ViaF64(Differentiate::<f64>::default()), &xs)),
+        ("int", "f64") => (1, run_all(&mut ViaF64(Integrate::<f64>::default()), &xs)),
+        ("pipe_di", "f64") => (2, run_all(&mut ViaF64(Pipe::new(Differentiate::<f64>::default(), Integrate::<f64>::default())), &xs)),
+        (_, "f64") => (3, run_all(&mut ViaF64(Pipe::new(Integrate::<f64>::default(), Differentiate::<f64>::default())), &xs)),
+        ("diff", "f32") => (0, run_all(&mut ViaF32(Differentiate::<f32>::default()), &xs)),
+        ("int", "f32") => (1, run_all(&mut ViaF32(Integrate::<f32>::default()), &xs)),
+        ("pipe_di", "f32") => (2, run_all(&mut ViaF32(Pipe::new(Differentiate::<f32>::default(), Integrate::<f32>::default())), &xs)),
+        (_, "f32") => (3, run_all(&mut ViaF32(Pipe::new(Integrate::<f32>::default(), Differentiate::<f32>::default())), &xs)),
+        (k, _) => match k {
         "diff" => (0, run_all(&mut Differentiate::<Rat>::default(), &xs)),
         "int" => (1, run_all(&mut Integrate::<Rat>::default(), &xs)),
         "pipe_di" => (2, run_all(&mut Pipe::new(Differentiate::<Rat>::default(), Integrate::<Rat>::default()), &xs)),
         _ => (3, run_all(&mut Pipe::new(Integrate::<Rat>::default(), Differentiate::<Rat>::default()), &xs)),
+        },
     };
     if p { stats.panics += 1; }
     Outcome::Case(format!("mk {} {} {} {}", k, cqlist(&xs), cqlist(&ys), cbool(p)))
